@@ -210,7 +210,9 @@ ENTRY = _entries()
 OPENERS = {'get_latex_braced_group': '{', 'get_latex_braced_group[': '[', 'get_latex_maybe_optional_arg': '[',
            'delimited_group_parser': '{', 'get_latex_expression': '{', 'expression_parser': '{', 'math_parser': '$',
            'get_latex_environment': '\\begin{center}'}
-FAULTS = ['}', '{', '$', '\\end{x}', '\\begin{x}', '\\)', '\\]', '\\(', '\\[', '\\textbf$', '\\verb']
+FAULTS = ['}', '{', '$', '\\end{x}', '\\begin{x}', '\\)', '\\]', '\\(', '\\[', '\\textbf$', '\\verb',
+          # token-level errors (raised by the token reader itself)
+          '\\begin ', '\\end ', '\\begin{', '\\end{x', '\\begin*']
 LINES = ['abc', '', '  x', '\\textbf{a}', '$x$', '{y}', '% c', '\\begin{itemize}\\item z\\end{itemize}', 'a\rb']
 
 
@@ -264,7 +266,10 @@ def run_shard(desc, rec):
             # nodes parser): inside the construct each of them reads, after some leading lines
             entry = sorted(ENTRY)[j % len(ENTRY)]
             lead = ''.join(rng.choice(['', 'ab\n', '\n', 'x \n\n']) for _ in range(2))
-            body = OPENERS.get(entry, '') + s + rng.choice(['', '', '}', ']', '$'])
+            body = OPENERS.get(entry, '') + s + rng.choice(['', '', '}', ']', '$', '\\', ' \\'])
+            if j % 5 == 0:
+                # the faulty token is the first thing the entry point reads
+                body = rng.choice(['\\begin x', '\\end', '\\', '\\begin{', '{\\begin y}', '{a\\'])
             rec.case()
             case = {'kind': 'error', 's': lead + body, 'offs': offs, 'entry': entry, 'start': len(lead)}
             rec.nontrivial((case['s'], entry))
